@@ -2,8 +2,8 @@ package checks
 
 import (
 	"fmt"
-	"os"
 	"math/big"
+	"os"
 	"strings"
 	"time"
 
